@@ -1218,11 +1218,25 @@ func respPushToNative(p respPush) []any {
 }
 
 func respNormalizeKey(k respValue) (output respValue) {
-	str, valid := k.toString()
-	if valid {
+	switch data := k.data.(type) {
+	case respInt:
+		output.data = data
+	case respDouble:
+		output.data = data
+	case respBool:
+		output.data = data
+	case respNull:
+		output.data = data
+	case respBigNumber:
+		output.data = data
+	default:
+		str, valid := k.toString()
+		if !valid {
+			// an array, map, set or push cannot be hashed; as a map key or set member
+			// it is identified by its text
+			str = fmt.Sprintf("%v", k.data)
+		}
 		output.data = respBulkString(str)
-	} else {
-		output.data = k.data
 	}
 	return
 }
